@@ -30,7 +30,22 @@ def check_groupby_sorted(ctx, res: Result, dotted: str, rule="G-GROUPBY"):
             elif isinstance(it, ast.Name) and it.id in {a.arg for a in v.fi.params}:
                 res.unknown(rule, f, norm(n)[:140], "sorted-input", "the grouped iterable is a parameter: whether the callers hand it over sorted is not decided", loc(v.fi, n))
             else:
-                res.violation(rule, f, norm(n)[:140], "sorted-input", f"groupby runs over `{norm(it)[:80]}`, which is not sorted by the grouping key: records with the same key that are not adjacent form several groups (a later group overwrites / duplicates an earlier one)", loc(v.fi, n))
+                # grouping (one entry per key) vs. run-length use (`sum(1 for _ in groupby(xs))`, islice(groupby(xs), 2)): only a
+                # consumer that files the groups under their key is hurt by a key that comes back
+                par = v.parent.get(id(n))
+                holder = par
+                while holder is not None and not isinstance(holder, (ast.For, ast.comprehension, ast.Assign, ast.Return, ast.Expr)):
+                    holder = v.parent.get(id(holder))
+                gname = holder.targets[0].id if isinstance(holder, ast.Assign) and len(holder.targets) == 1 and isinstance(holder.targets[0], ast.Name) else None
+                consumers = []
+                for x in ast.walk(v.fi.node):
+                    if isinstance(x, (ast.For, ast.comprehension)) and (x.iter is n or (gname and isinstance(x.iter, ast.Name) and x.iter.id == gname) or any(y is n for y in ast.walk(x.iter))):
+                        consumers.append(x)
+                keyed = any(isinstance(c_.target, ast.Tuple) and len(c_.target.elts) == 2 for c_ in consumers)
+                if keyed:
+                    res.violation(rule, f, norm(n)[:140], "sorted-input", f"groupby runs over `{norm(it)[:80]}`, which is not sorted by the grouping key: records with the same key that are not adjacent form several groups (a later group overwrites / duplicates an earlier one)", loc(v.fi, n))
+                else:
+                    res.unknown(rule, f, norm(n)[:140], "sorted-input", "groupby over an unsorted iterable whose groups are not unpacked as (key, group): a run-length use, not a grouping by key", loc(v.fi, n))
     # the same grouping written with numpy: run boundaries of a key column (`np.flatnonzero(np.diff(keys)) + 1`) delimit the
     # groups only when the records are sorted by that key
     for n in ast.walk(v.fi.node):
@@ -285,6 +300,21 @@ def check_iterator_reuse(ctx, res: Result, dotted, rule="G-REUSE"):
                 # b can run after a completed (for a loop: via its `done` edge), with no re-definition of the name in between
                 start = v.cfg.succ(a[0], "done") if isinstance(a[1], ast.For) else [a[0]]
                 redefs = {v.cfg_id(d) for d in defs} - {None}
+                if a[0] == b[0] and not isinstance(a[1], ast.For):
+                    # inside one statement: the two uses exclude each other when they sit in different arms of a conditional
+                    # expression (`list(g) if c else [x for x in g if ...]`)
+                    def arms_of(node):
+                        out, cur = [], node
+                        while cur is not None and cur is not fi.node:
+                            par_ = v.parent.get(id(cur))
+                            if isinstance(par_, ast.IfExp) and cur is not par_.test:
+                                out.append((id(par_), "body" if cur is par_.body else "orelse"))
+                            cur = par_
+                        return dict(out)
+
+                    aa, bb = arms_of(a[1]), arms_of(b[1])
+                    if any(k in bb and bb[k] != arm for k, arm in aa.items()):
+                        continue
                 if any(s_ == b[0] or v.cfg.reaches_without(s_, b[0], redefs) for s_ in start):
                     n_checked += 1
                     res.violation(rule, f, norm(b[1])[:100], name, f"`{name}` may be a generator (see its definition) and was consumed in full by `{norm(a[1])[:60]}`: this second use sees an empty iterator (a membership test is then always False, a loop runs zero times)", loc(fi, b[1]))
@@ -363,3 +393,121 @@ def check_stale_in_loop(ctx, res: Result, dotted, rule="G-STALE"):
                     break
     if n_found == 0:
         res.ok(rule, f, "no stale loop-local value", "scan", loc(fi, fi.node))
+
+
+def check_pack(ctx, res: Result, prop_id: str):
+    """The general-purpose lints of this module over EVERY function of the property's anchor files (and of the private
+    implementation modules they import): G-STALE, G-REUSE, N-FANCYAUG, G-GROUPBY, E-SHARED.  Each is a positive pattern - it
+    reports a construct, never an absence - so it can be run where no rule of the property was written for the function.
+    Only the findings (and one summary line per lint) are copied into the result."""
+    import json as _json
+    import os as _os
+
+    from .effects import check_shared_literals
+    from .report import VERIF_DIR
+
+    files = []
+    try:
+        for line in open(_os.path.join(VERIF_DIR, "properties.jsonl"), encoding="utf-8"):
+            p = _json.loads(line)
+            if p.get("id") == prop_id:
+                files = list((p.get("anchors") or {}).get("files") or [])
+    except OSError:
+        files = []
+    mods = [m for m in ctx.prog.modules.values() if m.relpath in files]
+    for m in list(mods):
+        for imp in m.imports.values():
+            if imp[0] == "symbol" and imp[1] in ctx.prog.modules and imp[1].split(".")[-1].startswith("_") and ctx.prog.modules[imp[1]] not in mods:
+                mods.append(ctx.prog.modules[imp[1]])
+    fis = [fi for fi in ctx.prog.functions.values() if fi.module in mods]
+    lints = (("G-STALE", check_stale_in_loop), ("G-REUSE", check_iterator_reuse), ("N-FANCYAUG", check_fancy_augassign), ("G-GROUPBY", check_groupby_sorted), ("E-SHARED", check_shared_literals), ("G-LIVEITER", check_mutation_while_iterating), ("E-DEFAULTARG", check_mutable_defaults))
+    seen_keys = {(o.rule, o.func, o.stmt) for o in res.obs}
+    for rule, fn in lints:
+        n_f = n_v = 0
+        for fi in fis:
+            tmp = Result(res.prop if hasattr(res, "prop") else prop_id)
+            try:
+                fn(ctx, tmp, fi)
+            except Exception:
+                continue
+            n_f += 1
+            for o in tmp.obs:
+                if o.status == "violation" and (o.rule, o.func, o.stmt) not in seen_keys:
+                    seen_keys.add((o.rule, o.func, o.stmt))
+                    res.obs.append(o)
+                    n_v += 1
+            for r_, d_ in tmp.rules.items():
+                res.rules.setdefault(r_, d_)
+        res.rules.setdefault(rule, "general lint (see hgxverif/lints.py)")
+        res.ok(rule, prop_id, f"{n_f} functions of the property's files scanned", "pack", ",".join(sorted(m.relpath for m in mods))[:200])
+
+
+def check_mutation_while_iterating(ctx, res: Result, dotted, rule="G-LIVEITER"):
+    """`for x in C:` over a live container (no list() / sorted() / .copy() / .items() snapshot of a different object) whose body
+    removes elements from the very same container expression: the iteration skips elements (lists) or raises (dicts / sets)."""
+    v = ctx.view(dotted)
+    fi = v.fi
+    res.rules.setdefault(rule, "no loop removes elements from the very container expression it iterates (iterate a snapshot: list(c) / c.copy())")
+    found = 0
+    for lp in walk_no_nested(fi.node):
+        if not isinstance(lp, ast.For):
+            continue
+        it = lp.iter
+        if isinstance(it, ast.Call) and isinstance(it.func, ast.Attribute) and it.func.attr in ("keys", "values", "items") and not it.args:
+            base, view_of_dict = it.func.value, True
+        else:
+            base, view_of_dict = it, False
+        if not isinstance(base, (ast.Name, ast.Attribute, ast.Subscript)):
+            continue
+        text = norm(base)
+        if isinstance(base, ast.Name) and base.id in {a.arg for a in fi.params} and not view_of_dict:
+            pass
+        hits = []
+        for n in ast.walk(ast.Module(body=lp.body, type_ignores=[])):
+            if isinstance(n, ast.Call) and isinstance(n.func, ast.Attribute) and n.func.attr in ("remove", "pop", "discard", "clear", "popitem") and norm(n.func.value) == text:
+                hits.append(n)
+            if isinstance(n, ast.Delete) and any(isinstance(t, ast.Subscript) and norm(t.value) == text for t in n.targets):
+                hits.append(n)
+        for h in hits:
+            # leaving the loop right after the removal is the safe idiom (`remove(x); break` / `return`)
+            st = v.stmt_of(h)
+            blk = v.parent.get(id(st))
+            body = None
+            for fld in ("body", "orelse"):
+                if isinstance(getattr(blk, fld, None), list) and any(x is st for x in getattr(blk, fld)):
+                    body = getattr(blk, fld)
+            after = body[body.index(st) + 1 :] if body and st in body else []
+            leaves = any(isinstance(x, (ast.Break, ast.Return, ast.Raise)) for x in after[:2])
+            found += 1
+            res.add(rule, fi.short, norm(h)[:100], text[:40], "unknown" if leaves else "violation", "the loop is left right after the removal" if leaves else f"the loop iterates `{norm(lp.iter)[:50]}` and removes elements from it in its body: a list then skips the element after each removed one, a dict / set raises `changed size during iteration`", loc(fi, h))
+    if not found:
+        res.ok(rule, fi.short, "no loop shrinks the container it iterates", "scan", loc(fi, fi.node))
+
+
+def check_mutable_defaults(ctx, res: Result, dotted, rule="E-DEFAULTARG"):
+    """A mutable default argument (`def f(x, acc=[])`, `meta={}`) that the function mutates or stores is one object shared by
+    all calls."""
+    v = ctx.view(dotted)
+    fi = v.fi
+    res.rules.setdefault(rule, "a mutable default argument is neither mutated nor stored by the function (one object would be shared by all calls)")
+    found = 0
+    for pname, d in fi.defaults().items():
+        mutable = isinstance(d, (ast.List, ast.Dict, ast.Set)) or (isinstance(d, ast.Call) and isinstance(d.func, ast.Name) and d.func.id in ("list", "dict", "set", "defaultdict", "Counter") and not d.args)
+        if not mutable:
+            continue
+        rebound = any(isinstance(n, ast.Name) and n.id == pname and isinstance(n.ctx, ast.Store) for n in walk_no_nested(fi.node))
+        uses = []
+        for n in walk_no_nested(fi.node):
+            if isinstance(n, ast.Call) and isinstance(n.func, ast.Attribute) and isinstance(n.func.value, ast.Name) and n.func.value.id == pname and n.func.attr in ("append", "extend", "add", "update", "setdefault", "pop", "remove", "insert", "clear", "discard"):
+                uses.append(n)
+            if isinstance(n, (ast.Assign, ast.AugAssign)):
+                tg = n.targets if isinstance(n, ast.Assign) else [n.target]
+                if any(isinstance(t, ast.Subscript) and isinstance(t.value, ast.Name) and t.value.id == pname for t in tg):
+                    uses.append(n)
+                if isinstance(n, ast.Assign) and isinstance(n.value, ast.Name) and n.value.id == pname and any(isinstance(t, (ast.Attribute, ast.Subscript)) for t in n.targets):
+                    uses.append(n)  # stored by reference: self.x = param / table[k] = param
+        if uses and not rebound:
+            found += 1
+            res.violation(rule, fi.short, norm(uses[0])[:100], pname, f"the default of `{pname}` is a mutable literal and the function mutates / stores it: every call that relies on the default shares (and grows) the same object", loc(fi, uses[0]))
+    if not found:
+        res.ok(rule, fi.short, "no mutable default argument is mutated or stored", "scan", loc(fi, fi.node))
